@@ -200,3 +200,4 @@ pub mod c33;
 pub mod c34;
 pub mod c34tx;
 pub mod c28;
+pub mod c25;
